@@ -206,7 +206,19 @@ def run_corpus(rec, seed, shard, nshards, tier):
     prop(case, rec)
 
 
+def run_fuzz(rec, seed, shard, nshards, tier):
+    """atheris (coverage-guided) with the oracle inside the target: shard 0 starts from an empty corpus, shard 1 from the unit
+    tests' literals and the hand-picked corpus."""
+    runs = {'quick': 0, 'thorough': 400000}[tier]
+    if not runs:
+        return
+    corpus = [s.encode('utf-8') for s in CORPUS] if shard == 1 else None
+    core.run_atheris(rec, 'c05', runs, seed, corpus=corpus, max_len=96,
+                     dictionary=[b'@', b'.com', b'www.', b'http://', b'19', b'20', b'#1', b'<3', b'1qaz', b'pass', b'word', b'\xc4\xb0', b' '])
+
+
 PARTS = [
+    Part('atheris_fuzz', run_fuzz, replay_ops, {'quick': 0, 'thorough': 2}),
     Part('corpus', run_corpus, replay_ops, {'quick': 1, 'thorough': 1}),
     Part('structured', run_structured, replay_ops, {'quick': 8, 'thorough': 16}),
     Part('text', run_text, replay_ops, {'quick': 4, 'thorough': 16}),
